@@ -213,4 +213,14 @@ def spawnWriter (P : Protocol) (st : State) (tabs : List Nat) (commit : Bool) (m
 def spawnRegister (P : Protocol) (st : State) : State :=
   { st with threads := st.threads ++ [{ prog := registerProg P }] }
 
+/-- a registration rejected for its duplicate name: returns after the name
+    check (before appending / storing), running only the deferred unlock -/
+def registerDupProg (P : Protocol) : List Micro :=
+  let pre := P.register.takeWhile (· ≠ .appendTable)
+  let unlock := if P.register.contains .unlockRoot then [Act.unlockRoot] else []
+  [.park "start"] ++ (pre ++ unlock).flatMap (expand P [])
+
+def spawnRegisterDup (P : Protocol) (st : State) : State :=
+  { st with threads := st.threads ++ [{ prog := registerDupProg P }] }
+
 end Sdb.Conc
